@@ -478,6 +478,7 @@ impl<'p> World<'p> {
             Step::RefSeal { tok, family, key, purpose, payload, footer, aad, nonce, suffix } => {
                 self.ref_seal(*tok, *family, *key, *purpose, payload, footer, aad, nonce, suffix)
             }
+            Step::ObjectRoundtrip { node, purpose, skey, ukey, msg, footer, aad_seal, aad_unseal, rng } => self.object_roundtrip(*node, *purpose, *skey, *ukey, &msg.get(), &footer.get(), &aad_seal.get(), &aad_unseal.get(), rng),
             Step::Reseal { tok, from, node, ukey, skey, claims, aad, rng, now_ns } => {
                 self.reseal(*tok, *from, *node, *ukey, *skey, claims.as_ref(), aad, rng, now_ns.0)
             }
@@ -820,6 +821,62 @@ impl<'p> World<'p> {
 
     /// Token refresh (C01/C16): unseal an authentic token and seal the object that came out again.
     #[allow(clippy::too_many_arguments)]
+    /// The token object as `seal` returns it, handed straight to `unseal` (a service that signs and checks
+    /// its own tokens in one process never sees the text): accepted iff the key is the sealing key's
+    /// partner and the assertion is the one sealed with; otherwise an error, and neither the payload
+    /// decoder nor the validator has run.
+    #[allow(clippy::too_many_arguments)]
+    fn object_roundtrip(&mut self, node: usize, purpose: Purp, skey: usize, ukey: usize, msg: &[u8], footer: &[u8], aad_seal: &[u8], aad_unseal: &[u8], rng: &RngSpec) {
+        let Some(bk) = self.node_bk(node) else { return self.skip("no-node") };
+        let (Some(skh), Some(ukh)) = (self.node_key(node, skey), self.node_key(node, ukey)) else { return self.skip("missing-key") };
+        let (srec, urec) = (self.keys[&skey].clone(), self.keys[&ukey].clone());
+        let (want_s, want_u) = if purpose == Purp::Local { (Kind::Local, Kind::Local) } else { (Kind::Secret, Kind::Public) };
+        if srec.kind != want_s || urec.kind != want_u || srec.family != bk.family() || urec.family != bk.family() {
+            return self.skip("key-kind");
+        }
+        let be = backend(bk);
+        if !bk.has_aad() && (!aad_seal.is_empty() || !aad_unseal.is_empty()) {
+            return self.skip("no-assertions-in-this-version");
+        }
+        // is the unsealing key the partner of the sealing key? (bytes, not object identity)
+        let partner = match purpose {
+            Purp::Local => be.key_raw(Kind::Local, &skh).ok(),
+            Purp::Public => be.public_of(&skh).ok().and_then(|p| be.key_raw(Kind::Public, &p).ok()),
+        };
+        let (Some(partner), Some(uraw)) = (partner, be.key_raw(urec.kind, &ukh).ok()) else { return self.skip("key-bytes") };
+        let should = partner == uraw && aad_seal == aad_unseal;
+        let op = format!("unseal-object-{}", purpose.name());
+        self.arm(rng, None);
+        let r = be.seal_then_unseal_object(purpose, &skh, &ukh, msg, footer, aad_seal, aad_unseal);
+        let draws = self.disarm();
+        self.stats.evaluations += 1;
+        self.stats.bump(&format!("op:object-roundtrip:{}:{}", bk.name(), purpose.name()));
+        self.stats.distinct.insert(format!("object-roundtrip|{}|{}|should{}|{}", bk.name(), purpose.name(), should as u8, r.class()));
+        if draws.iter().any(|d| d.failed) {
+            return;
+        }
+        match r {
+            Out::Ok((true, _, _)) if should => self.stats.bump("object-roundtrip:accepted"),
+            Out::Ok((true, d, v)) => {
+                self.violate("C02", "forgery-accepted", bk, &op, "token-object", format!("a token object straight from seal was accepted under {} (decoder ran {d}x, validator {v}x)", if partner != uraw { "another key" } else { "another assertion" }));
+                self.violate("C12", "decoder-invoked-on-unauthenticated", bk, &op, "token-object", format!("a token object that fails authentication reached the payload decoder ({d} calls) and validator ({v} calls)"));
+            }
+            Out::Ok((false, d, v)) if !should => {
+                if d != 0 || v != 0 {
+                    self.violate("C12", "decoder-invoked-on-unauthenticated", bk, &op, "token-object", format!("rejected, but the payload decoder ran {d}x and the validator {v}x"));
+                }
+                self.stats.bump("object-roundtrip:rejected");
+            }
+            Out::Ok((false, _, _)) => self.violate("C01", "authentic-rejected", bk, &op, "token-object", "a token object straight from seal was rejected under the right key and assertion".into()),
+            Out::Err(e) => {
+                if srec.honest || srec.expect_valid == Some(true) {
+                    self.violate("C01", "seal-failed", bk, &op, "token-object", format!("{e:?}"));
+                }
+            }
+            Out::Panic(p) => self.violate("C04", "panic", bk, &op, "token-object", p),
+        }
+    }
+
     fn reseal(&mut self, tok: usize, from: usize, node: usize, ukey: usize, skey: usize, claims: Option<&ClaimsSpec>, aad: &Bytes, rng: &RngSpec, now_ns: i128) {
         let Some(bk) = self.node_bk(node) else { return self.skip("no-node") };
         let Some(trec) = self.toks.get(&from).cloned() else { return self.skip("missing-token") };
